@@ -30,6 +30,8 @@ PROP = {
         'routing of slots inside a local migration task is C02: clause (3) is about slots not under migration; for '
         'migrating slots the harness oracle compares the advertisement with the real routing in the phases that pin '
         'the serving side down (source PreCheck / Scanning / FinalSwitch / SwitchCommitted, destination PreCheck)',
+        'the timer model is the identity (`Hist.timer`): that the real task stores no state on expiry is tied to the code '
+        'only differentially (`tick` lines of the timeout family), not by a transliteration of the select!/timeout futures',
         'the source phase PreBlocking is transient (ms) and is not held by the harness; the truth table and the '
         'theorems cover it (it behaves like every state other than PreCheck)',
     ],
@@ -57,11 +59,17 @@ CHECK = {
             'state). On a long-lived proxy (C14_history_last_only / C14_install_history / C14_new_migration_at_source): after '
             'any accepted SETCLUSTER the replies are those of the last accepted metadata with the phase map of a task map that '
             'has a task for every tagged local range - kept ones in their phase, new ones in PreCheck - so a migration newly '
-            'exposed next to running ones is advertised at its source until its own handshake. should_ignore_slots is a '
+            'exposed next to running ones is advertised at its source until its own handshake; a switch command whose meta '
+            'is not exactly the MigrationTaskMeta of an installed task is refused and leaves NODES/SLOTS unchanged '
+            '(C14_stray_switch); timer expiry alone (max_migration_time / max_blocking_time) moves nothing '
+            '(C14_timer_changes_nothing). should_ignore_slots is a '
             'generated truth table. Checked every run against the real proxy: hand-built '
             'partitions (source / destination / bystander), views served by the real broker MetaStore mid-migration, '
             'perturbed metas, install histories of 2-4 SETCLUSTERs on the same proxy process (migrations hidden by the migration '
-            'limit, exposed later before/after running ones on the same node, committed; task map compared after every install), '
+            'limit, exposed later before/after running ones on the same node, re-issued over the same range with a new source '
+            'and epoch, committed; task map compared after every install), stale / one-field-altered UMCTL switch commands '
+            'between installs (must answer TASK_NOT_FOUND / NOT_READY and change nothing), a "peer never acknowledges, '
+            'max_migration_time = 1 s expires" family on the paused clock, '
             'both formats, textual and compressed SETCLUSTER, phases driven through UMCTL PRECHECK/PRESWITCH/'
             'FINALSWITCH and the real RedisScanMigratingTask; oracle on the implementation: all 16384 slots advertised once, '
             'NODES = SLOTS, advertisement = routing probes.',
